@@ -13,12 +13,14 @@ EXTENDS Integers, Sequences, FiniteSets, TLC
 CONSTANTS MaxGen, MaxAttempts, InitialWait, MaxWait, WithMonitor,
           CloseSignal,     \* "shared" (one token channel for all generations) | "pergen" | "pergen+id" (the code)
           Sequential,      \* TRUE: user / environment steps only at quiescence (refinement check)
-          AllowCloseFail   \* underlying Close() may fail (outside C15's fault list; explored separately)
+          AllowCloseFail,  \* underlying Close() may fail (outside C15's fault list; explored separately)
+          StartAtomic      \* TRUE: a read loop is blocked in its read as soon as Open returns (histories at quiescence);
+                           \* FALSE: the goroutine started by Open enters its first read in a later step
 L == INSTANCE LifeAbs WITH a <- 0
 Gens == 1..MaxGen
 USER == 0  FREE == -1
 Closers == {USER} \cup Gens
-VARIABLES isOpen, gen, mu, tokS, tokG, under, fault, rl, pc, closeCh, userRes, spurious,
+VARIABLES isOpen, gen, mu, tokS, tokG, under, fault, rl, pend, pc, closeCh, userRes, spurious,
           monSig,      \* monitor's cap-1 channel of causes
           mon,         \* monitor runner: "wait" | "sleep" | "open" | "done"
           attempts,    \* failed reopen attempts in the current attemptReopen loop
@@ -27,27 +29,28 @@ VARIABLES isOpen, gen, mu, tokS, tokG, under, fault, rl, pc, closeCh, userRes, s
           told, closes,
           failsLeft,   \* environment: how many of the next underlying Open() calls fail
           abs          \* LifeAbs state (history variable)
-vars == <<isOpen, gen, mu, tokS, tokG, under, fault, rl, pc, closeCh, userRes, spurious, monSig, mon, attempts, wait, mlog, told, closes, failsLeft, abs>>
-lifevars == <<isOpen, gen, mu, tokS, tokG, under, fault, rl, pc, closeCh, userRes, spurious>>
+vars == <<isOpen, gen, mu, tokS, tokG, under, fault, rl, pend, pc, closeCh, userRes, spurious, monSig, mon, attempts, wait, mlog, told, closes, failsLeft, abs>>
+lifevars == <<isOpen, gen, mu, tokS, tokG, under, fault, rl, pend, pc, closeCh, userRes, spurious>>
 monvars == <<monSig, mon, attempts, wait, mlog, told, failsLeft>>
 
 Init == /\ isOpen = FALSE /\ gen = 0 /\ mu = FREE /\ tokS = 0 /\ tokG = [g \in Gens |-> 0]
         /\ under = "closed" /\ fault = [g \in Gens |-> "none"] /\ rl = [g \in Gens |-> "none"]
+        /\ pend = [g \in Gens |-> FALSE]     \* the read this loop is blocked in was failed by a Close of the underlying transport
         /\ pc = [p \in Closers |-> "out"] /\ closeCh = [g \in Gens |-> <<>>]
         /\ userRes = "none" /\ spurious = FALSE
         /\ monSig = <<>> /\ mon = (IF WithMonitor THEN "wait" ELSE "done") /\ attempts = 0 /\ wait = 0 /\ mlog = <<>>
         /\ told = 0 /\ closes = 0 /\ failsLeft = 0 /\ abs = L!AbsInit
 CauseOf(p) == IF p = USER THEN "nil" ELSE L!Cause(fault[p])
 
-LoopBusy(g) == \/ rl[g] \in {"goterr", "willclose"} \/ pc[g] # "out"
-               \/ (rl[g] = "reading" /\ (fault[g] # "none" \/ under = "closed" \/ g # gen))
+LoopBusy(g) == \/ rl[g] \in {"started", "goterr", "willclose"} \/ pc[g] # "out"
+               \/ (rl[g] = "reading" /\ (fault[g] # "none" \/ under = "closed" \/ pend[g]))
 Quiet == pc[USER] = "out" /\ (\A g \in Gens : ~LoopBusy(g)) /\ mon \in {"wait", "done"} /\ (mon = "wait" => monSig = <<>>)
 MayStep == ~Sequential \/ Quiet
 
 \* Open(): one critical section under f.mu (a fresh per-generation signal channel starts empty)
 DoOpen == /\ mu = FREE /\ ~isOpen /\ gen < MaxGen
           /\ gen' = gen + 1 /\ isOpen' = TRUE /\ under' = "open"
-          /\ rl' = [rl EXCEPT ![gen + 1] = "reading"]
+          /\ rl' = [rl EXCEPT ![gen + 1] = IF StartAtomic THEN "reading" ELSE "started"]
 \* With a live monitor, reopening after a failure is the monitor's job: a user Open racing the runner's own
 \* Open is outside the histories C15 quantifies over (DESIGN 5a).
 UserMayOpen == gen = 0 \/ mon = "done" \/ (Quiet /\ isOpen)
@@ -55,11 +58,11 @@ UOpen == /\ MayStep /\ pc[USER] = "out" /\ mu = FREE /\ UserMayOpen
          /\ IF isOpen THEN userRes' = "ALREADY_OPEN" /\ UNCHANGED <<isOpen, gen, under, rl>>
                       ELSE DoOpen /\ userRes' = "ok"
          /\ abs' = L!AbsOpen(abs)
-         /\ UNCHANGED <<mu, tokS, tokG, fault, pc, closeCh, spurious, closes>> /\ UNCHANGED monvars
+         /\ UNCHANGED <<mu, tokS, tokG, fault, pend, pc, closeCh, spurious, closes>> /\ UNCHANGED monvars
 \* the underlying Open() fails: nothing changes
 UOpenFail == /\ MayStep /\ pc[USER] = "out" /\ mu = FREE /\ UserMayOpen
              /\ userRes' = (IF isOpen THEN "ALREADY_OPEN" ELSE "openerr") /\ abs' = L!AbsOpenFail(abs)
-             /\ UNCHANGED <<isOpen, gen, mu, tokS, tokG, under, fault, rl, pc, closeCh, spurious, closes>> /\ UNCHANGED monvars
+             /\ UNCHANGED <<isOpen, gen, mu, tokS, tokG, under, fault, rl, pend, pc, closeCh, spurious, closes>> /\ UNCHANGED monvars
 
 \* close(cause): enter under f.mu, push the close token (may block!), close the underlying transport, publish
 CloseEnter(p) ==
@@ -69,18 +72,19 @@ CloseEnter(p) ==
             /\ IF p = USER THEN userRes' = "NOT_OPEN" /\ UNCHANGED rl
                            ELSE rl' = [rl EXCEPT ![p] = "exited"] /\ UNCHANGED userRes
        ELSE mu' = p /\ pc' = [pc EXCEPT ![p] = "push"] /\ UNCHANGED <<userRes, rl>>
-  /\ UNCHANGED <<isOpen, gen, tokS, tokG, under, fault, closeCh, spurious, closes>> /\ UNCHANGED monvars
+  /\ UNCHANGED <<isOpen, gen, tokS, tokG, under, fault, pend, closeCh, spurious, closes>> /\ UNCHANGED monvars
 ClosePush(p) ==
   /\ pc[p] = "push" /\ mu = p
   /\ IF CloseSignal = "shared" THEN tokS < 1 /\ tokS' = tokS + 1 /\ UNCHANGED tokG
                                ELSE tokG[gen] < 1 /\ tokG' = [tokG EXCEPT ![gen] = 1] /\ UNCHANGED tokS
   /\ pc' = [pc EXCEPT ![p] = "under"]
-  /\ UNCHANGED <<isOpen, gen, mu, under, fault, rl, closeCh, userRes, spurious, closes, abs>> /\ UNCHANGED monvars
+  /\ UNCHANGED <<isOpen, gen, mu, under, fault, rl, pend, closeCh, userRes, spurious, closes, abs>> /\ UNCHANGED monvars
 \* underlying Close() succeeds: publish the cause once, tell the monitor (non-blocking), clear isOpen
 CloseDone(p) ==
   /\ pc[p] = "under" /\ mu = p
   /\ under' = "closed" /\ isOpen' = FALSE /\ mu' = FREE
   /\ closeCh' = [closeCh EXCEPT ![gen] = Append(@, CauseOf(p))]
+  /\ pend' = [g \in Gens |-> pend[g] \/ rl[g] = "reading"]       \* every read blocked right now fails
   /\ monSig' = IF Len(monSig) < 1 /\ mon # "done" THEN Append(monSig, CauseOf(p)) ELSE monSig
   /\ closes' = closes + 1
   /\ spurious' = (spurious \/ (p # USER /\ p # gen))
@@ -92,7 +96,7 @@ CloseFail(p) ==
   /\ AllowCloseFail /\ pc[p] = "under" /\ mu = p /\ p = USER
   /\ IF CloseSignal = "shared" THEN tokS' = 0 /\ UNCHANGED tokG ELSE tokG' = [tokG EXCEPT ![gen] = 0] /\ UNCHANGED tokS
   /\ mu' = FREE /\ pc' = [pc EXCEPT ![p] = "out"] /\ userRes' = "closeerr"
-  /\ UNCHANGED <<isOpen, gen, under, fault, rl, closeCh, spurious, closes, abs>> /\ UNCHANGED monvars
+  /\ UNCHANGED <<isOpen, gen, under, fault, rl, pend, closeCh, spurious, closes, abs>> /\ UNCHANGED monvars
 UClose == MayStep /\ CloseEnter(USER) /\ abs' = L!AbsClose(abs)
 
 \* environment: the stream ends ("eof"), breaks ("err"), or carries an undecodable frame ("badframe");
@@ -103,15 +107,18 @@ Fault(g, kind, k) ==
   /\ (gen < MaxGen \/ k >= MaxAttempts \/ mon # "wait" \/ L!Cause(kind) = "nil")
   /\ fault' = [fault EXCEPT ![g] = kind] /\ failsLeft' = k
   /\ abs' = L!AbsFault(abs, kind, k)
-  /\ UNCHANGED <<isOpen, gen, mu, tokS, tokG, under, rl, pc, closeCh, userRes, spurious, closes, monSig, mon, attempts, wait, mlog, told>>
+  /\ UNCHANGED <<isOpen, gen, mu, tokS, tokG, under, rl, pend, pc, closeCh, userRes, spurious, closes, monSig, mon, attempts, wait, mlog, told>>
 \* read loop: the blocking read returns an error (stream fault, or the underlying transport was closed)
-RLErr(g) == /\ rl[g] = "reading" /\ (fault[g] \in {"eof", "err"} \/ under = "closed" \/ g # gen)
-            /\ rl' = [rl EXCEPT ![g] = "goterr"]
+RLErr(g) == /\ rl[g] = "reading" /\ (fault[g] \in {"eof", "err"} \/ under = "closed" \/ pend[g])
+            /\ rl' = [rl EXCEPT ![g] = "goterr"] /\ pend' = [pend EXCEPT ![g] = FALSE]
             /\ UNCHANGED <<isOpen, gen, mu, tokS, tokG, under, fault, pc, closeCh, userRes, spurious, closes, abs>> /\ UNCHANGED monvars
+\* the goroutine started by Open reaches its first blocking read
+RLStart(g) == /\ rl[g] = "started" /\ rl' = [rl EXCEPT ![g] = "reading"]
+              /\ UNCHANGED <<isOpen, gen, mu, tokS, tokG, under, fault, pend, pc, closeCh, userRes, spurious, closes, abs>> /\ UNCHANGED monvars
 \* read loop: registry.Execute failed on a frame: straight to close(err), no look at the close signal
 RLBad(g) == /\ rl[g] = "reading" /\ fault[g] = "badframe" /\ under = "open" /\ g = gen
             /\ rl' = [rl EXCEPT ![g] = "willclose"]
-            /\ UNCHANGED <<isOpen, gen, mu, tokS, tokG, under, fault, pc, closeCh, userRes, spurious, closes, abs>> /\ UNCHANGED monvars
+            /\ UNCHANGED <<isOpen, gen, mu, tokS, tokG, under, fault, pend, pc, closeCh, userRes, spurious, closes, abs>> /\ UNCHANGED monvars
 \* select { case <-closeSignal: return ; default: }
 RLCheck(g) ==
   /\ rl[g] = "goterr"
@@ -122,7 +129,7 @@ RLCheck(g) ==
        ELSE /\ UNCHANGED tokS
             /\ IF tokG[g] > 0 THEN tokG' = [tokG EXCEPT ![g] = 0] /\ rl' = [rl EXCEPT ![g] = "exited"]
                               ELSE tokG' = tokG /\ rl' = [rl EXCEPT ![g] = "willclose"]
-  /\ UNCHANGED <<isOpen, gen, mu, under, fault, pc, closeCh, userRes, spurious, closes, abs>> /\ UNCHANGED monvars
+  /\ UNCHANGED <<isOpen, gen, mu, under, fault, pend, pc, closeCh, userRes, spurious, closes, abs>> /\ UNCHANGED monvars
 RLClose(g) == rl[g] = "willclose" /\ CloseEnter(g) /\ UNCHANGED abs
 
 \* ---- monitor runner ----
@@ -145,10 +152,10 @@ MonOpen == /\ mon = "open" /\ mu = FREE
                 ELSE /\ DoOpen
                      /\ mlog' = Append(mlog, L!CB("reopened", attempts, wait))
                      /\ mon' = "wait" /\ attempts' = 0 /\ UNCHANGED <<failsLeft, wait>>
-                     /\ UNCHANGED <<mu, tokS, tokG, fault, pc, closeCh, userRes, spurious>>
+                     /\ UNCHANGED <<mu, tokS, tokG, fault, pend, pc, closeCh, userRes, spurious>>
            /\ UNCHANGED <<monSig, told, closes, abs>>
 Sys == \/ \E p \in Closers : ClosePush(p) \/ CloseDone(p)
-       \/ \E g \in Gens : RLErr(g) \/ RLBad(g) \/ RLCheck(g) \/ RLClose(g)
+       \/ \E g \in Gens : RLStart(g) \/ RLErr(g) \/ RLBad(g) \/ RLCheck(g) \/ RLClose(g)
        \/ MonTake \/ MonSleepDone \/ MonOpen
 Env == \/ UOpen \/ UOpenFail \/ UClose \/ CloseFail(USER)
        \/ \E g \in Gens, kind \in L!Kinds, k \in 0..MaxAttempts : Fault(g, kind, k)
@@ -157,6 +164,9 @@ Spec == Init /\ [][Next]_vars /\ WF_vars(Sys)
 \* ---------------- properties (C15) ----------------
 FailureDetected == (Quiet /\ gen > 0 /\ fault[gen] # "none") => ~isOpen
 OpenHasReader == (Quiet /\ isOpen) => rl[gen] = "reading"
+\* only the current generation's loop may read the underlying transport: a loop of an earlier generation
+\* that is (still) reading the reopened transport steals the new generation's bytes
+NoStaleReader == \A g \in Gens : (rl[g] = "reading" /\ under = "open" /\ ~pend[g] /\ fault[g] = "none") => g = gen
 OneCause == \A g \in Gens : Len(closeCh[g]) <= 1
 ClosedHasCause == \A g \in Gens : (g < gen \/ (g = gen /\ ~isOpen /\ Quiet)) => Len(closeCh[g]) = 1
 CauseNilIffClean == \A g \in Gens : closeCh[g] # <<>> => (closeCh[g][1] = "err" => fault[g] \in {"err", "badframe"})
